@@ -26,7 +26,8 @@ static char seen[8][12][4];
 static const char *STATE_NAME[] = {"NoDebugger", "AttachedIdle", "TestRunning", "TestPaused", "TestFinished"};
 static const char *ORDER_NAME[] = {"shutdown,exit", "close-stdin", "disconnect,shutdown,exit", "shutdown,disconnect,exit",
                                    "shutdown,exit,disconnect", "close-stdin,close-tcp", "close-tcp,shutdown,exit",
-                                   "shutdown,connect,exit", "shutdown,exit,connect", "close-stdin,connect"};
+                                   "shutdown,connect,exit", "shutdown,exit,connect", "close-stdin,connect",
+                                   "disconnect-keep,shutdown,exit"};
 static const char *OUT_NAME[] = {"exit-0", "HANG", "exit-101"};
 static void triple(int s, int o, int x) {
     if (!seen[s][o][x]) { seen[s][o][x] = 1; printf("TRIPLE %s %s %s\n", STATE_NAME[s], ORDER_NAME[o], OUT_NAME[x]); }
@@ -149,6 +150,7 @@ proctype Client() {
     :: ord = 0 :: ord = 1
     :: st != 0 -> ord = 2 :: st != 0 -> ord = 3 :: st != 0 -> ord = 4 :: st != 0 -> ord = 5 :: st != 0 -> ord = 6
     :: st == 0 -> ord = 7 :: st == 0 -> ord = 8 :: st == 0 -> ord = 9
+    :: st != 0 -> ord = 10
     fi;
     /* set up the session */
     if
@@ -175,6 +177,8 @@ proctype Client() {
                    stdin_ch!m_exit
     :: ord == 8 -> stdin_ch!m_shutdown; resp_ch?_; stdin_ch!m_exit;
                    if :: conn_req!1 -> tcp_open = true :: dbg_finished -> skip fi
+    /* (for the protocol a disconnect with arguments is a disconnect) */
+    :: ord == 10 -> tcp!m_disconnect; stdin_ch!m_shutdown; resp_ch?_; stdin_ch!m_exit
     :: ord == 9 -> stdin_ch!m_eof;
                    if :: conn_req!1 -> tcp_open = true :: dbg_finished -> skip fi
     fi
